@@ -56,10 +56,49 @@ CLAIMS = {
         "note": NOTE_COMMON,
         "technique": "pydantic field-table extraction; guard formulas vs specification truth tables; who-may-call sweep for validation-bypass APIs",
     },
+    "C05": {
+        "text": "Static decision of the structural clauses behind bounds/features/anchor points: both per-type dispatch tables are "
+                "exhaustive and type-aligned; each of the 9 converters hands the coordinates to shapely unchanged in (time, frequency) "
+                "order (time-only types spanning [0, MAX_FREQUENCY]); compute_bounds is the converted shape's bounds; all 33 Feature "
+                "rows carry the canonical expression their term names over the bounds positions; all 11 named positions evaluate to "
+                "the specified corner/midpoint/centre as (time, frequency). shapely's bounds/centroid/point_on_surface are trusted.",
+        "design_ref": "DESIGN.md section 3, C05 (R05.1-R05.5)",
+        "note": NOTE_COMMON,
+        "technique": "dispatch-table exhaustiveness, canonical-term (value numbering) comparison of every table row and of the position selector under each constant position",
+    },
+    "C06": {
+        "text": "Static decision of the structural clauses of the affinity: function summaries invariant under swapping the two "
+                "geometries (commutative operators / proven-symmetric callees order-free); type sets exact and time branch iff "
+                "either geometry is time-only; both geometries prepared with the caller's buffers; canonical IoU with zero-union "
+                "guard in both branches; the area quotient, which has no static bound of 1, is clamped. IoU values, disjoint => 0 "
+                "and shift invariance depend on shapely numerics and are not decided.",
+        "design_ref": "DESIGN.md section 3, C06 (R06.1-R06.5)",
+        "note": NOTE_COMMON,
+        "technique": "swap-invariance of gated-SSA summaries under algebraic canonicalisation; canonical-term matching of the IoU; range rule for unclamped area quotients",
+    },
+    "C07": {
+        "text": "Static decision of the structural clauses of match_geometries: cell (i, j) is the affinity of source[i] and target[j] "
+                "with the caller's buffers; the solver maximises over the unmodified matrix; paired rows/columns leave the leftover "
+                "sets in the same iteration and all leftovers are yielded one-sided; two-sided yields are dominated by a positive-"
+                "affinity test; the reported affinity is the pair's cell (0 one-sided). Optimality of scipy's solver is trusted.",
+        "design_ref": "DESIGN.md section 3, C07 (R07.1-R07.5)",
+        "note": NOTE_COMMON,
+        "technique": "index/element provenance through enumerate/product; dominance and pairing rules over the event list of the generator",
+    },
+    "C08": {
+        "text": "Static decision of the structural clauses of sound_event_detection: clips paired by clip id; index-domain typing of "
+                "every subscript of the prediction/annotation lists (an index from a filtered or foreign list is rejected); coverage "
+                "of both lists exactly once by the match-loop sources (matcher part + complementary one-sided parts, complement "
+                "checked on the filter predicates); affinity/score flow; pair score from (annotation truth, prediction scores); "
+                "guarded means over exactly the constructed matches / clips; three None-cases with one Match each.",
+        "design_ref": "DESIGN.md section 3, C08 (R08.1-R08.7)",
+        "note": NOTE_COMMON,
+        "technique": "index-domain typing (abstract interpretation of list indices), coverage analysis of comprehension filters, case analysis of the branch guards",
+    },
 }
 
 _DONE = set(CLAIMS)
 NOT_APPLICABLE = {f"C{i:02d}": "checker under construction in this session (static rules designed in DESIGN.md section 3); "
                                "not yet claimed" for i in range(1, 21) if f"C{i:02d}" not in _DONE}
 
-FIX_COMMITS = ["c835c87 (C01 licence)", "7a83dd0 (C01 prediction-set sequences)", "531fadf (C02 evaluation tags)", "6fda367 (C04 Evaluation.score bounds)"]
+FIX_COMMITS = ["c835c87 (C01 licence)", "7a83dd0 (C01 prediction-set sequences)", "531fadf (C02 evaluation tags)", "6fda367 (C04 Evaluation.score bounds)", "a327a28 (C06 clamp)", "9c74d6e (C07 zero-affinity pairs)", "e394000 (C08 index/coverage)", "40e4031 (C08 affinity)"]
